@@ -2,7 +2,10 @@
 (* Trace specification for C16.  Lines recorded by the drivers (overlay/verifdrivers/c16):          *)
 (*   Reset                          a new scenario                                                  *)
 (*   Call{ep, shape}                written and flushed BEFORE the real code is entered             *)
-(*   Outcome{ep, outcome}           the duty ended: ok | error | fallback                           *)
+(*   Decoded{ep, accepted}          Vouch's own decoder returned (entry points that call it directly)*)
+(*   Use{ep, use, outcome}          a consumer of the decoded value ran: lookup | register | auction *)
+(*   Outcome{ep, outcome}           the duty ended: ok | error | fallback (only accepted once the    *)
+(*                                  input was consumed end to end: Robustness!Consumed)              *)
 (*   Undeliverable{ep}              the real library decoder does not deliver this (gated) shape    *)
 (*   DecoderPanic{ep, decoder, via} the HTTP decoding layer of a client library panicked (no value    *)
 (*                                  is delivered to Vouch; outside the property's quantifier)         *)
@@ -20,11 +23,21 @@ IsEvent(e) == l <= TraceLen /\ Trace[l].ev = e /\ l' = l + 1
 
 TraceReset ==
     /\ IsEvent("Reset")
-    /\ pending' = NoCall /\ last' = NoOutcome /\ alive' = TRUE
+    /\ pending' = NoCall /\ progress' = NoProgress /\ last' = NoOutcome /\ alive' = TRUE
 
 TraceCall ==
     /\ IsEvent("Call")
     /\ Call(Trace[l].ep, Trace[l].shape)
+
+TraceDecoded ==
+    /\ IsEvent("Decoded")
+    /\ pending.ep = Trace[l].ep
+    /\ Decoded(Trace[l].accepted)
+
+TraceUse ==
+    /\ IsEvent("Use")
+    /\ pending.ep = Trace[l].ep
+    /\ Use(Trace[l].use, Trace[l].outcome)
 
 TraceOutcome ==
     /\ IsEvent("Outcome")
@@ -41,7 +54,7 @@ TraceDecoderPanic ==
     /\ pending.ep = Trace[l].ep
     /\ DecoderPanic
 
-TraceNext == TraceReset \/ TraceCall \/ TraceOutcome \/ TraceUndeliverable \/ TraceDecoderPanic
+TraceNext == TraceReset \/ TraceCall \/ TraceDecoded \/ TraceUse \/ TraceOutcome \/ TraceUndeliverable \/ TraceDecoderPanic
 
 TraceSpec == TraceInit /\ [][TraceNext]_tvars
 
